@@ -202,21 +202,26 @@ OPS = [("__neg__", "Negation", 1), ("__add__", "Add", 2), ("__sub__", "Minus", 2
        ("__truediv__", "Divide", 2), ("__pow__", "Power", 2)]
 
 
-def fam_operator(op, target, nargs):
+def fam_operator(op, target, nargs, recv=None):
+    """recv: a concrete class that overrides the operator (then the receiver is an arbitrary
+    object of that class and its own method runs); None: the inherited Expression method with a
+    receiver of unknown class."""
+    owner = recv.name if recv is not None else "Expression"
+
     def run(prog, tier):
         fam_all = None
         tags = [None] if nargs == 1 else OPERAND_TAGS
         for tag in tags:
-            nm = f"Expression.{op}[{tag or ''}]"
+            nm = f"{owner}.{op}[{tag or ''}]"
 
             def setup(I, tag=tag):
-                a = I.contracts.make_child(I, "a")
+                a = I.contracts.make_child(I, "a") if recv is None else H.make_self(I, recv, 2 if recv.name in ("Add", "Multiply") else None, name="a")
                 b = tagged(I, tag, "b") if tag else None
                 I.ghost["a"], I.ghost["b"] = a, b
                 I.ghost["replay"] = {"kind": "operator", "root": None, "pt": None, "x": None,
                                      "extra": {"op": op, "a": lambda cz: structural_value(cz, I, a),
                                                "b": lambda cz: (structural_value(cz, I, b) if nargs == 2 else None)}}
-                fd = prog.classes["Expression"].methods[op]
+                fd = prog.classes["Expression"].methods[op] if recv is None else recv.lookup(op)
                 return lambda: I.call_funcdef(fd, [a] + ([b] if nargs == 2 else []), {})
 
             def post(I, res, emit, tag=tag):
@@ -250,13 +255,13 @@ def fam_operator(op, target, nargs):
             fam = H.run_family(prog, nm, setup, post)
             if fam_all is None:
                 fam_all = fam
-                fam_all.name = f"Expression.{op}"
+                fam_all.name = f"{owner}.{op}"
             else:
                 fam_all.obls += fam.obls
                 fam_all.paths += fam.paths
                 fam_all.error = fam_all.error or fam.error
         return fam_all
-    return FamilySpec(f"Expression.{op}", ["C15"], run, functions=[f"Expression.{op}"])
+    return FamilySpec(f"{owner}.{op}", ["C15"], run, functions=[f"{owner}.{op}"])
 
 
 def fam_no_reflected_operators():
@@ -589,6 +594,10 @@ def specs(prog, tier):
         out.append(fam_constructor(cls))
     for op, target, n in OPS:
         out.append(fam_operator(op, target, n))
+        base_fd = prog.classes["Expression"].methods.get(op)
+        for cls in prog.concrete_expression_classes():
+            if cls.lookup(op) is not base_fd:
+                out.append(fam_operator(op, target, n, recv=cls))       # a subclass overrides the operator
     out.append(fam_no_reflected_operators())
     for cls, k, label, bnd in class_variants(prog, tier):
         out.append(fam_eq(cls, k, label, bnd))
